@@ -197,7 +197,17 @@ Definition expected_skeleton : list string :=
    "runForAllActors: defer Wait; Add; runWorker{defer Done}";
    "runConduct: worker{send errChan conduct; defer close errChan}; return recv errChan";
    "run: prepareDirs < newApp < runConduct < assemble < plot";
-   "consumer: loop; go{consumer; close readerDone}; recv readerDone"].
+   "consumer: loop; go{consumer; close readerDone}; recv readerDone";
+   (* the channel protocol: auditCh (prompter and spotlights -> audition) and
+      collCh (prompter and audition -> collector) have several senders and are
+      never closed — the audition ends on the terminate{} event of the
+      spotlight supervisor or on cancellation, the collector on the audition's
+      terminate{} or on cancellation; termCh is closed by its only owner, the
+      prompter's worker; each error channel by its single sender.  (Closing
+      auditCh in startSpotlights made a prompter still running after a
+      spotlight failure panic with "send on closed channel": fixed in 27a1a66.) *)
+   "closes: actor.runActorCommandWithConsumer:readerDone; app.close:endCh; app.runConduct:errChan; audition.startAudition:errCh; collectErrors:errCh; collector.startCollector:errCh; prompter.startPrompter:errCh; prompter.startPrompter:termCh; runReaderAsync:lines; spotMgr.startSpotlights:errCh";
+   "senders: auditCh <- prompter.reportMoodEvent, prompter.signalActChange, spotMgr.detectSignals, spotMgr.signalAuditTermination; collCh <- audition.collectEvent, audition.sendCollectorEvent, audition.signalCollectorTermination, prompter.reportCollectorEvent"].
 
 (** the only pointer to a cell the protocol allows *)
 Definition expected_aliases : list (string * string) :=
